@@ -1,6 +1,7 @@
 package props
 
 import (
+	"context"
 	"hash/fnv"
 	"regexp"
 	"runtime"
@@ -69,3 +70,5 @@ func raceBothIn(rep string, subs ...string) bool {
 	}
 	return true
 }
+
+func contextBackground() context.Context { return context.Background() }
